@@ -55,7 +55,7 @@ def run_one(B, shim, wd, rq, bursts, exitcode=0, sig=0, pad=0, timeout=60, extra
     open(d + '/job.sh', 'w').write(job_script(d, bursts, exitcode, sig, pad))
     open(d + '/in.txt', 'w').write(rq.get('stdin', ''))
     if rq.get('mailrc'): open(d + '/mailrc', 'w').write('%d\n' % rq['mailrc'])
-    sh = rq.get('shell', '/bin/sh')
+    sh = rq.get('shell', '/bin/sh') if not rq.get('nospawn') else '/nonexistent/sh'
     L = ['BEGIN:VCALENDAR', 'VERSION:2.0']
     if rq.get('warmup'):
         # another task of the same request goes first (one echsx takes them in turn): a short job whose output is mailed too
@@ -97,7 +97,7 @@ def run_one(B, shim, wd, rq, bursts, exitcode=0, sig=0, pad=0, timeout=60, extra
            'nmail': len(mails), 'mail': mail_tokens(mails[0]) if mails else [],
            'jexit': int(m.group(1)) if m else -1, 'jsig': int(ms.group(1)) if ms else 0, 'cancelled': 'STATUS:CANCELLED' in jr1, 'jhead_ok': jhead_ok, 'jentries': len(entries),
            'tmpleft': [t for t in tmpl if os.path.exists(t)], 'alarms': alarms, 'wall': round(wall, 2)}
-    rq2 = dict(rq, mo=bool(rq['mo']), me=bool(rq['me']), wd=d + '/cwd', stdin=rq.get('stdin', '').strip(), shell=sh, norun=bool(rq.get('norun')))
+    rq2 = dict(rq, mo=bool(rq['mo']), me=bool(rq['me']), wd=d + '/cwd', stdin=rq.get('stdin', '').strip(), shell=sh, norun=bool(rq.get('norun')), nospawn=bool(rq.get('nospawn')))
     out = [[1, i + 1, 7 + pad] for i in range(sum(n for s, n in bursts if s == 1))]
     err = [[2, i + 1, 7 + pad] for i in range(sum(n for s, n in bursts if s == 2))]
     obs['warm_ok'] = (nwarm == 1 and len(entries) == 2) if rq.get('warmup') else True
